@@ -11,9 +11,8 @@ package tcp
 //@
 //@ struct listener
 //@   lock lock level 50
-//@   guarded_by lock: maxRecvSize lc
+//@   guarded_by lock: maxRecvSize lc l bound
 //@   immutable: addr proto handshaker closeq
-//@   racy: l bound because written by Listen with no lock and read by Accept/Address/Close; no lock discipline exists for them in the code (outside the guard sweep)
 //@
 //@ func (*dialer).Dial
 //@   before call:SetOption#1 assert arg0 == mangos.OptionMaxRecvSize && arg1 == iface(d.maxRecvSize) && held(d.lock)
